@@ -381,6 +381,8 @@ def slice_bounds(I, sl, length):
 def subscript(I, base, k, node=None):
     c = I.ctx
     base, k = I.unopt(base), I.unopt(k)
+    if isinstance(k, SSlice):
+        k = SSlice(I.unopt(k.lo), I.unopt(k.hi), I.unopt(k.step))
     if isinstance(base, (STuple, SList)):
         n = len(base.items)
         if isinstance(k, SSlice):
